@@ -42,7 +42,9 @@ Table == [
   enT    |-> [ty |-> "EnumE",  clonable |-> TRUE,  tree |-> Sum(<<Prim(1), Prim(8)>>)],                      \* E::Tuple(u8,u64)
   enN    |-> [ty |-> "EnumE",  clonable |-> TRUE,  tree |-> Sum(<<Bytes(6), Sum(<<Prim(2), Bytes(4), Sum(<<Prim(4)>>)>>)>>)], \* E::Named{x:String(6), inner:StructA}
   gen    |-> [ty |-> "Gen<u16>", clonable |-> TRUE, tree |-> Sum(<<Prim(2), Prim(2)>>)],
-  ncl    |-> [ty |-> "NoClone", clonable |-> FALSE, tree |-> Prim(7)]
+  ncl    |-> [ty |-> "NoClone", clonable |-> FALSE, tree |-> Prim(7)],
+  zst    |-> [ty |-> "Zst",    clonable |-> TRUE,  tree |-> Prim(0)],            \* zero-sized type with a destructor
+  dq     |-> [ty |-> "VecDeque<u8>", clonable |-> TRUE, tree |-> Sum(<<Prim(1), Prim(1), Prim(1), Prim(1)>>)]  \* ring buffer that wraps around
 ]
 AllTypes == {Table[k].ty : k \in DOMAIN Table}
 
